@@ -912,11 +912,29 @@ func (c *Ctx) startFailValue(v ssa.Value, noPS *ssa.Global, sT *types.TypeName, 
 		return g == noPS
 	}
 	if isFieldLoad(v, sT, "err") {
-		return true
+		return false // unconditional return of the pending error: it may be nil or io.EOF
 	}
 	switch x := origin(v).(type) {
 	case *ssa.Phi:
-		for _, e := range x.Edges {
+		for i, e := range x.Edges {
+			if isFieldLoad(e, sT, "err") {
+				// the pending read error may be returned only when it is neither nil nor io.EOF
+				notNil, notEOF := false, false
+				for _, cd := range edgeConds(x.Block().Preds[i], x.Block()) {
+					if m, ok := asCmp(cd); ok && m.op == token.NEQ && (m.x == e || m.y == e) {
+						if isNilConst(m.x) || isNilConst(m.y) {
+							notNil = true
+						}
+						if isEOFGlobal(m.x) || isEOFGlobal(m.y) {
+							notEOF = true
+						}
+					}
+				}
+				if !notNil || !notEOF {
+					return false
+				}
+				continue
+			}
 			if !c.startFailValue(e, noPS, sT, seen) {
 				return false
 			}
@@ -936,4 +954,17 @@ func (c *Ctx) startFailValue(v ssa.Value, noPS *ssa.Global, sT *types.TypeName, 
 		}
 	}
 	return false
+}
+
+// edgeConds: conditions that hold when control flows along pred→succ.
+func edgeConds(pred, succ *ssa.BasicBlock) []cond {
+	out := domConds(pred)
+	if ifi, ok := pred.Instrs[len(pred.Instrs)-1].(*ssa.If); ok {
+		if pred.Succs[0] == succ && pred.Succs[1] != succ {
+			out = append(out, cond{ifi.Cond, true, pred})
+		} else if pred.Succs[1] == succ && pred.Succs[0] != succ {
+			out = append(out, cond{ifi.Cond, false, pred})
+		}
+	}
+	return out
 }
